@@ -18,8 +18,10 @@ lane() {
   mkdir -p "$L/verif"
   git -C /repo worktree add --detach "$L/repo" HEAD >/dev/null 2>&1 || { echo "lane $k: cannot create worktree"; return 2; }
   cp /repo/Cargo.lock "$L/repo/" 2>/dev/null
-  cp -r /verif/sim /verif/shims /verif/check /verif/known_findings.json "$L/verif/"
+  cp -r /verif/sim /verif/shims /verif/check /verif/known_findings.json /verif/tools /verif/miri "$L/verif/"
   rm -rf "$L/verif/sim/target"
+  sed -i "s#path = \"/repo\"#path = \"$L/repo\"#" "$L/verif/miri/Cargo.toml"
+  sed -i "s#target-dir = \"/verif/target/miri\"#target-dir = \"$L/verif/target/miri\"#" "$L/verif/miri/.cargo/config.toml"
   sed -i "s#path = \"/repo\"#path = \"$L/repo\"#" "$L/verif/sim/Cargo.toml"
   sed -i "s#target-dir = \"/verif/target\"#target-dir = \"$L/verif/target\"#" "$L/verif/sim/.cargo/config.toml"
   (cd "$L/verif" && VERIF_ROOT="$L/verif" ./check setup >/dev/null 2>&1) || { echo "lane $k: setup failed"; return 2; }
@@ -32,7 +34,13 @@ lane() {
       echo "$name -> $id: PATCH DOES NOT APPLY" >> "$base/out.$k"; git -C "$L/repo" reset -q --hard HEAD; continue
     fi
     git -C "$L/repo" reset -q
-    out=$(cd "$L/verif" && VERIF_ROOT="$L/verif" ./check "$id" quick 2>&1); code=$?
+    tierw=$(python3 -c "import json;m=json.load(open('$d/meta.json'));print((m.get('detected_by') or {}).get('tier') or 'quick')")
+    if [ "$tierw" = thread-world ]; then
+      # detected by the thorough tier's thread world (real rayon under Miri's seeded scheduler)
+      out=$(cd "$L/verif" && VERIF_ROOT="$L/verif" ./check thread-world "$id" 2 8 2>&1); code=$?
+    else
+      out=$(cd "$L/verif" && VERIF_ROOT="$L/verif" ./check "$id" quick 2>&1); code=$?
+    fi
     cls=$(echo "$out" | grep -m1 'violation class' | sed 's/^ *//')
     ok=MISS; [ "$code" = "$want" ] && ok=ok
     echo "$name -> $id: exit=$code (recorded $want) $ok  $cls" >> "$base/out.$k"
